@@ -115,6 +115,7 @@ def harnesses(tier, seed):
         if len(x) == 4 and iname == "id" and rule == "trapezoid":
             ctx.sample({"kernel_grid": g, "rule": rule, "alpha": alpha})
 
+    hs.append(c01._long_harness(PREFIX, quick))
     hs.append({"name": "kernel-basis", "body": kernel_body,
                "bound_text": "grids of 3..%d points on {0..10} x 3 rational images x 2 rules x alpha 1..3" % kmax})
     return hs
